@@ -2,10 +2,11 @@
 
 Pipeline (model-based, TLA+ decides):
   1. TLC explores spec/python/MC_PyLayer exhaustively: the binding's index / option logic as coded (Level B:
-     transposition, y_events flattening, sol(t) layout, status map, option-parsing table, greedy column grouping and
+     transposition, y_events flattening, sol(t) layout, status map, option-parsing table, the parse_events loop over lists
+     of 2 and 3 event functions each with / without its own terminal / direction attributes, greedy column grouping and
      grouped finite differences) is checked against the Level-A contract of C20 for every input of the bounded model
-     (all shapes n, m <= 4; all 0/1 sparsity patterns n <= 3 plus a seed-selected 1/64 of n = 4 in quick, all 65 536 in
-     thorough).  One REPLAY record per input.  A violated invariant here is a model problem (tool error), not a verdict.
+     (all shapes n, m <= 4; all 400 + 8 000 attribute lists; all 0/1 sparsity patterns n <= 3 plus a seed-selected 1/64 of
+     n = 4 in quick, all 65 536 in thorough).  One REPLAY record per input.  A violated invariant here is a model problem (tool error), not a verdict.
   2. harness/src/bin/py_ref.rs turns the REPLAY records (shapes, patterns with the model's grouping, option table
      with the parse result the specification expects) into a seed-driven case table, runs the Rust API on every case
      and dumps every Solution field as bit tokens.
@@ -47,6 +48,10 @@ ASSUMPTIONS = [
     "for m = 0 (t_eval = []) and k = 0 (sol([])) the contract demands the literal (n, 0) shapes (StrictEmpty = TRUE); the code returns "
     "(0, 0) resp. (0,): known findings C20/yshape/.*/shape-m0 and C20/solshape/.*/k0 (exercised by the 4 shape-m0 cases only)",
     "sol(t) is compared with Solution::sol only where the Rust API answers (inside the covered span); outside it only 'does not raise, shape (n,)'",
+    "event lists: the Rust reference gives every event its own EventConfig built from the parse result PyLayer's EvListContract demands "
+    "for that function's own attributes (absent = non-terminal, both directions); quick replays every pair and a seed-selected 1/4 of the "
+    "triples, thorough all of them; lists containing terminal = 1 or direction = 2 (outside the docstring) are Level-B only (drift); the "
+    "threshold event functions are crossed in both directions in every case (measured: r.census, clause Adequate of Trace_Py)",
     "TLC and the CommunityModules Json/IOUtils modules are trusted; scipy is not used",
 ]
 
@@ -194,6 +199,9 @@ def validate(work, merged, tag):
                                  f"{r.lines('UNMATCHED')[:1]}")
         if r.depth != len(ch) + 1:
             raise vlib.ToolError(f"trace chunk {k}: depth {r.depth} != lines+1 {len(ch) + 1}")
+        bad = printed_values(r.out, "INADEQUATE")
+        if bad:
+            raise vlib.ToolError(f"event-list scenario without crossings in both directions for every event function: {bad[:2]}")
         viol += printed_values(r.out, "VIOL")
         drift += printed_values(r.out, "DRIFT")
         cover += printed_values(r.out, "COVER")
@@ -249,7 +257,7 @@ def run(tier, seed, replay, keep):
             raise vlib.ToolError(f"TLC failed on MC_PyLayer: {r.error}")
         scen = [_replay_payload(line) for line in r.lines("REPLAY")]
         kinds = collections.Counter(s["kind"] for s in scen)
-        if not scen or not kinds.get("pattern") or not kinds.get("shape") or not kinds.get("method"):
+        if not scen or not kinds.get("pattern") or not kinds.get("shape") or not kinds.get("method") or not kinds.get("evlist"):
             raise vlib.ToolError("MC_PyLayer produced no / incomplete REPLAY lines")
         scen.sort(key=lambda s: json.dumps(s, sort_keys=True))
         sfile = os.path.join(work, "scen.json")
@@ -310,8 +318,14 @@ def run(tier, seed, replay, keep):
             "cases_by_class": dict(classes), "cases_by_method": dict(methods),
             "y_shapes_observed": len(shapes), "y_shapes_small": [f"{a}x{b}" for (a, b) in shapes if b <= 4],
             "notes": NOTES,
-            "statuses_other_than_success": {k: v for k, v in cover_kinds.items() if k not in ("both-fail", "event-found")},
+            "statuses_other_than_success": {k: v for k, v in cover_kinds.items()
+                                            if k not in ("both-fail", "event-found", "evlist-both-directions")},
             "cases_with_event_found": cover_kinds.get("event-found", 0),
+            "event_list_cases": {k: v for k, v in classes.items() if k.startswith("ev-list")},
+            "event_list_cases_documented_forms_only": sum(1 for c in cases if c["class"].startswith("ev-list") and c["doc"]),
+            "event_list_cases_with_crossings_in_both_directions_for_every_event": cover_kinds.get("evlist-both-directions", 0),
+            "event_list_cases_stopped_by_a_terminal_event": sum(1 for m in merged if m["c"]["class"].startswith("ev-list")
+                                                                and m["r"]["ok"] and m["r"]["status"] == "UserInterrupt"),
             "grouping_observations_by_number_of_groups": {str(k): v for k, v in sorted(grp_seen.items())},
             "sparsity_containers_used": dict(collections.Counter(m["p"].get("sparsity_container", "") for m in merged
                                                                  if m["c"]["has_sparsity"])),
